@@ -458,3 +458,29 @@ Example C11_info_stack_example :
   | _ => False
   end.
 Proof. cbv zeta. split; [vm_compute; reflexivity|]. vm_compute. repeat split. Qed.
+(* ---------- Tie A level 1, work package readerT (tools/src2v3_reader.py -> gen/Src3d.v): RawLayerReader re-translated from the source, statement by statement, IS RawLayer.v's (theories/SrcTie3Raw.v) ---------- *)
+From MLA Require SrcTie3Raw.
+Check SrcTie3Raw.raw_seek_src.
+Theorem C11_tie_raw_seek_src : ltac:(let t := type of SrcTie3Raw.raw_seek_src in exact t).
+Proof. exact SrcTie3Raw.raw_seek_src. Qed.
+Print Assumptions C11_tie_raw_seek_src.
+Check SrcTie3Raw.raw_read_src.
+Theorem C11_tie_raw_read_src : ltac:(let t := type of SrcTie3Raw.raw_read_src in exact t).
+Proof. exact SrcTie3Raw.raw_read_src. Qed.
+Print Assumptions C11_tie_raw_read_src.
+Check SrcTie3Raw.raw_reset_src.
+Theorem C11_tie_raw_reset_src : ltac:(let t := type of SrcTie3Raw.raw_reset_src in exact t).
+Proof. exact SrcTie3Raw.raw_reset_src. Qed.
+Print Assumptions C11_tie_raw_reset_src.
+Check SrcTie3Raw.raw_new_src.
+Theorem C11_tie_raw_new_src : ltac:(let t := type of SrcTie3Raw.raw_new_src in exact t).
+Proof. exact SrcTie3Raw.raw_new_src. Qed.
+Print Assumptions C11_tie_raw_new_src.
+Check SrcTie3Raw.raw_stream_src.
+Theorem C11_tie_raw_stream_src : ltac:(let t := type of SrcTie3Raw.raw_stream_src in exact t).
+Proof. exact SrcTie3Raw.raw_stream_src. Qed.
+Print Assumptions C11_tie_raw_stream_src.
+Check SrcTie3Raw.translated_raw_nonvacuous.
+Theorem C11_tie_translated_raw_nonvacuous : ltac:(let t := type of SrcTie3Raw.translated_raw_nonvacuous in exact t).
+Proof. exact SrcTie3Raw.translated_raw_nonvacuous. Qed.
+Print Assumptions C11_tie_translated_raw_nonvacuous.
